@@ -103,6 +103,8 @@ def evaluate(
 
   # No code.
   if not code_block.body:   # pytype: disable=attribute-error
+    if returns_stdout:
+      return ''
     return {} if outputs_intermediate else None
 
   stdout = io.StringIO()
